@@ -284,7 +284,21 @@ def check_compute(fx, R, cq, cname, f):
                         fact = ('%s() hands the kd-tree overload a tree kept in the object, rebuilt only when `%s`; the condition compares the identity of the point set, not its coordinates: after the '
                                 'same buffer is refilled (a rotated or new cloud of the same size) the search runs on the split planes of the EARLIER coordinates and the neighbours are not the k nearest' % (
                                     hname, pp(cond_build[0]['c'])))
-            R.form(False, 'N1', inst, 'delegation idiom not recognised: %s' % (st,), '', loc, 'E-SIB', facts=[(fact is not None, fact)])
+            # argument routing by name: an output of this overload handed to a differently named output of the overload it calls (two VectorType & compile in either order)
+            fact2 = None
+            calls_ = [y for y in walk(f['body']) if isinstance(y, dict) and y.get('k') == 'MCall' and y.get('m') == 'compute' and y.get('pnames')]
+            if len(calls_) == 1:
+                route = []
+                for pname_, a_ in zip(calls_[0]['pnames'], calls_[0].get('args', [])):
+                    a0 = strip_casts(a_)
+                    if isinstance(a0, dict) and a0.get('k') == 'Ref' and a0.get('rk') == 'param' and a0.get('name') in names:
+                        route.append((a0['name'], pname_))
+                wrong = [(a_, p_) for (a_, p_) in route if a_ != p_ and p_ in ('normals', 'curvatures', 'normalsReliability', 'points') and a_ in ('normals', 'curvatures', 'normalsReliability', 'points')]
+                if wrong:
+                    fact2 = ('this overload hands its `%s` to the parameter `%s` of the overload it forwards to (%s): the caller\'s %s vector receives the %s, and the real %s are written to a scratch vector and '
+                             'dropped - for this overload the reported curvature is |lambda1 / lambda0| (tens to infinity on a plane), not smallest eigenvalue / trace in [0, 1/DIM]' % (
+                                 wrong[0][0], wrong[0][1], ', '.join('%s -> %s' % r_ for r_ in route), wrong[0][0], wrong[0][1], wrong[0][0]))
+            R.form(False, 'N1', inst, 'delegation idiom not recognised: %s' % (st,), '', loc, 'E-SIB', facts=[(fact is not None, fact), (fact2 is not None, fact2)])
         return
     loops = [x for x in walk(f['body']) if x.get('k') == 'For']
     if len(loops) != 1:
@@ -411,6 +425,18 @@ def check_compute(fx, R, cq, cname, f):
     if 'normalsReliability' in names:
         rl = [s for s in body if isinstance(s, tuple) and s[0] == '=' and s[1] == ('[]', 'normalsReliability', n)]
         R.form(len(rl) == 1 and rl[0][2] == ('.computeNormalReliability', 'this'), 'N2', inst + ':reliability', 'reliability is %s' % (rl,), 'computeNormalReliability()', loc, 'E-SIB')
+
+
+def before_query(ifnode, top):
+    """the early return sits in front of the statement that asks the tree for the neighbours of the point, and its condition is not an equality test of the point index with a remembered index"""
+    qi = next((i_ for i_, x_ in enumerate(top) if any(isinstance(y, dict) and y.get('k') == 'MCall' and y.get('m') == 'findNearestNeighbors' for y in walk(x_))), None)
+    ii = next((i_ for i_, x_ in enumerate(top) if x_ is ifnode or any(y is ifnode for y in walk(x_))), None)
+    if qi is None or ii is None or ii >= qi:
+        return False
+    c = strip_casts(ifnode['c'])
+    if c.get('k') == 'Bin' and c.get('op') == '==' and 'pointIndex' in pp(c):
+        return False                       # same point as last time: a different question (the cloud may have changed), left to the sweep
+    return True
 
 
 def scalar_signature(ifnode, before):
@@ -616,6 +642,11 @@ def check_plane(fx, R, cq, cname, f):
                 R.violated('N8', short_fn(cq.split('<')[0]) + '::planeEstimation_:signature-shortcut', 'planeEstimation_ returns before the eigen-decomposition - keeping the eigenvalues and eigenvectors of the PREVIOUS '
                            'point - when `%s`, where `%s`: one number computed by %s does not identify a set of k neighbour indexes (the index sets {0, 4, 5} and {1, 2, 6} have the same sum and the same sum of '
                            'squares), so a point whose neighbourhood differs from the previous one can receive the previous plane, normal and curvature [%s]' % (ctext, sig[0], sig[1], cname), fx.rel(node['loc']), 'E-STATE')
+            elif before_query(node, top):
+                R.violated('N8', short_fn(cq.split('<')[0]) + '::planeEstimation_:no-query-shortcut', 'planeEstimation_ returns when `%s` BEFORE the neighbours of points[pointIndex] have been asked for: what stays in the '
+                           'eigenvalues and eigenvectors is the decomposition of ANOTHER point\'s neighbourhood, and the condition does not establish that this point has the same k nearest neighbours (belonging to a '
+                           'remembered list of indexes is not having that list as one\'s own neighbourhood: next to a crease the point gets the plane of the seed, not the direction of least variance of its own '
+                           'k neighbours) [%s]' % (ctext[:140], cname), fx.rel(node['loc']), 'E-STATE')
             else:
                 R.undecided('N8', inst + ':shortcut', 'returns before the eigen-decomposition when `%s`; whether that condition is exact for the inputs of the quantifier is not decided' % ctext)
         if not exits:
